@@ -4,6 +4,7 @@ import MakoModel.Inherit.LemmasBind
 import MakoModel.Inherit.LemmasExec
 import MakoModel.Inherit.LemmasMemo
 import MakoModel.Inherit.LemmasOnce
+import MakoModel.Inherit.LemmasCount
 import MakoModel.Inherit.Examples
 /-!
 # C06 – inheritance chains dispatch self/next/parent correctly; blocks render once
@@ -72,8 +73,8 @@ theorem render_starts_at_base (c : List Level) (hwf : wf c = true) (hc : compile
             { tmpl := c.length - 1, ctx := c.length - 1, bound := b, pageargs := some e } base.nodes) := by
   refine ⟨builtHeap c.length, populateSelf_built c hwf hc, ?_⟩
   rw [render_built c hwf hc]
-  have : base.member bodyName = some (MKind.body, base.nodes) := by simp [Level.member]
-  simp only [invoke, hb, Option.bind_some, this, Option.map_some]
+  have : base.member bodyName = some (MKind.body, base.sig, base.nodes) := by simp [Level.member]
+  simp only [invoke, hb, Option.bind_some, this]
   rfl
 
 example : compiles ex3 = true ∧ (ex3[ex3.length - 1]?).isSome = true := by decide
@@ -140,12 +141,12 @@ example : attrAt ex3 1 ['a'] = some 7 ∧ attrAt ex3 0 ['a'] = none := by decide
 
 /-- the defect: a def named `uri` is declared by the only template of the chain, yet `self.uri` is not it -/
 theorem member_dispatch_counterexample :
-    let c : List Level := [{ nodes := [.defn ['u', 'r', 'i'] [.text 1]] }]
+    let c : List Level := [{ nodes := [.defn ['u', 'r', 'i'] [] [.text 1]] }]
     hasDef c 0 ['u', 'r', 'i'] = true ∧
     (∀ h cb, populateSelf c = .ok (h, cb) → getattr c h 0 ['u', 'r', 'i'] ≠ .member 0 0) := by
   refine ⟨by decide, ?_⟩
   intro h cb hb
-  have : populateSelf [({ nodes := [.defn ['u', 'r', 'i'] [.text 1]] } : Level)] = .ok (heap0, (0, 0)) := rfl
+  have : populateSelf [({ nodes := [.defn ['u', 'r', 'i'] [] [.text 1]] } : Level)] = .ok (heap0, (0, 0)) := rfl
   rw [this] at hb
   simp only [Except.ok.injEq, Prod.mk.injEq] at hb
   rw [← hb.1]
@@ -250,6 +251,49 @@ example : wf exPlain = true ∧ compiles exPlain = true ∧ (∀ x ∈ usedNames
     expandBody exPlain 2 = [.text 7, .text 2, .text 4, .text 3, .text 1, .text 6, .text 9] := by decide
 example : PlainChain exPlain := plainChain_of_check exPlain (by decide)
 
+/-- **named_block_once**, as a count (partial: names are not attributes of mako's Namespace objects).
+In a plain chain (`named_block_once_partial`) of any length whose bodies, from `T₁` on, call `next.body()` exactly
+once and whose block names are unique within each template: let `b` be a block name, `kb` the base-most template
+declaring it, and `k` a text that occurs once in the most-derived definition of `b` and in no body and no
+most-derived content of another block.  Then `k` occurs in the render output exactly once - whatever the
+number of templates declaring or overriding `b`. -/
+theorem named_block_once_count_partial (c : List Level) (hwf : wf c = true) (hc : compiles c = true)
+    (hp : PlainChain c) (hn : ∀ x ∈ usedNames c, x ∉ nsAttrs)
+    (hnodup : ∀ l ∈ c, (mainBlocksL l.nodes).Nodup)
+    (hnext : ∀ t, 0 < t → t < c.length → nextCalls (nodesAt c t) = 1)
+    (k : Nat) (b : Name) (hb0 : b ≠ bodyName) (hnd : noDefNamed c b = true)
+    (hbody : ∀ l ∈ c, cnt k (textsOut l.nodes) = 0)
+    (hother : ∀ l ∈ c, ∀ b' ∈ mainBlocksL l.nodes, b' ≠ b → cnt k (contentOf c b') = 0)
+    (hb : cnt k (contentOf c b) = 1)
+    (kb : Nat) (hkb : kb < c.length) (hdecl : hasDef c kb b = true)
+    (hlast : ∀ t, kb < t → t < c.length → hasDef c t b = false)
+    (fuel : Nat) (out : List Out) (h : render c fuel [] = .ok out) :
+    out.count (.text k) = 1 := by
+  have hout := named_block_once_partial c hwf hc hp hn fuel out h
+  have hbody' : ∀ t, cnt k (textsOut (nodesAt c t)) = 0 := by
+    intro t
+    cases hcl : c[t]? with
+    | none => simp [nodesAt, hcl, textsOut, cnt_nil]
+    | some lv =>
+      simp only [nodesAt, hcl, Option.map_some, Option.getD_some]
+      exact hbody lv (List.mem_of_getElem? hcl)
+  have hlen : c.length - 1 < c.length := by omega
+  have := cnt_expandBody c hp k b hnodup hnext hb0 hnd hbody' hother hb kb hkb hdecl hlast (c.length - 1) hlen
+  rw [hout]
+  have hle : kb ≤ c.length - 1 := by omega
+  simpa [cnt, hle] using this
+
+example :
+    (∀ l ∈ exPlain, (mainBlocksL l.nodes).Nodup) ∧
+    (∀ t, 0 < t → t < exPlain.length → nextCalls (nodesAt exPlain t) = 1) ∧
+    noDefNamed exPlain ['b'] = true ∧ (∀ l ∈ exPlain, cnt 2 (textsOut l.nodes) = 0) ∧
+    (∀ l ∈ exPlain, ∀ b' ∈ mainBlocksL l.nodes, b' ≠ ['b'] → cnt 2 (contentOf exPlain b') = 0) ∧
+    cnt 2 (contentOf exPlain ['b']) = 1 ∧ hasDef exPlain 2 ['b'] = true := by
+  refine ⟨by decide, ?_, by decide, by decide, by decide, by decide, by decide⟩
+  intro t h0 ht
+  have : t = 1 ∨ t = 2 := by simp [exPlain] at ht; omega
+  rcases this with e | e <;> subst e <;> decide
+
 /-- the defect: the only declaration of block `name` is in `T₀`, whose body `T₁` calls; by the rules the block
 renders at its position, the code writes nothing there -/
 theorem named_block_counterexample :
@@ -285,12 +329,55 @@ theorem body_args_reach_page_signature (c : List Level) (hwf : wf c = true) (hc 
   have hd : hasDef c j bodyName = true := by simp [hasDef, hj, Level.declares, Level.member]
   have hf : firstFrom c j bodyName = some j :=
     firstIdx_eq_some (Nat.le_refl _) (by omega) hd (fun m a b => by omega)
-  have hm : target.member bodyName = some (MKind.body, target.nodes) := by simp [Level.member]
-  simp only [specDispatch, ruleDispatch, hnb, if_false, hf, invoke, hj, Option.bind_some, hm, Option.map_some]
+  have hm : target.member bodyName = some (MKind.body, target.sig, target.nodes) := by simp [Level.member]
+  simp only [specDispatch, ruleDispatch, hnb, if_false, hf, invoke, hj, Option.bind_some, hm]
   rfl
 
 example : (heapDispatch ex3 (builtHeap ex3.length)).ref 1 .next = some 0 ∧ (ex3[0]?).isSome = true := by
   rw [heapDispatch_built ex3]; decide
+
+/-- **member_dispatch with arguments** (partial: the name is not an attribute of mako's Namespace objects).
+`r.x(*pos, **kw)` executed by code whose context binds `r` to namespace `j`: the member that runs is the one of
+the least level `i ≥ j` declaring `x` (def, block or body), in level `i`'s context, and Python binds `pos`/`kw`
+against that member's own parameters - a def takes exactly its declared parameters (a TypeError otherwise), a
+block or body also takes `**pageargs`; AttributeError when no level from `j` to the base declares `x`. -/
+theorem member_call_binds_partial (c : List Level) (hwf : wf c = true) (hc : compiles c = true) (h : Heap)
+    (callable : Nat × Nat) (hb : populateSelf c = .ok (h, callable)) (r : Ref) (j : Nat) (x : Name)
+    (hx : x ∉ nsAttrs) (run : Env → List Node → Res) (env : Env)
+    (href : (heapDispatch c h).ref env.ctx r = some j) (pos : List Val) (kw : List (Name × Val)) :
+    (∀ i lv kind params kids, j ≤ i → c[i]? = some lv → lv.member x = some (kind, params, kids) →
+        (∀ m, j ≤ m → m < i → hasDef c m x = false) →
+        step c (heapDispatch c h) run env (.call r x pos kw) =
+          match bind params (kind != .defn) pos kw with
+          | none => .error .typeError
+          | some (b, e) =>
+            run { tmpl := i, ctx := i, bound := b, pageargs := if kind = .defn then none else some e } kids) ∧
+    ((∀ i, j ≤ i → i < c.length → hasDef c i x = false) →
+        step c (heapDispatch c h) run env (.call r x pos kw) = .error .attributeError) := by
+  simp only [step, href]
+  rw [populateSelf_built c hwf hc] at hb
+  simp only [Except.ok.injEq, Prod.mk.injEq] at hb
+  rw [← hb.1, heapDispatch_built]
+  simp only [specDispatch, ruleDispatch, hx, if_false, firstFrom]
+  constructor
+  · intro i lv kind params kids h1 hi hm h4
+    have hil : i < c.length := by
+      rcases Nat.lt_or_ge i c.length with hlt | hge
+      · exact hlt
+      · rw [List.getElem?_eq_none hge] at hi; simp at hi
+    have hd : hasDef c i x = true := by simp [hasDef, hi, Level.declares, hm]
+    rw [firstIdx_eq_some h1 (by omega) hd h4]
+    simp only [invoke, hi, Option.bind_some, hm]
+    rfl
+  · intro h1
+    rw [firstIdx_eq_none (fun m hm1 hm2 => h1 m hm1 (by omega))]
+    rfl
+
+example :
+    let c : List Level :=
+      [ { nodes := [.call .parent ['d'] [4] [(['q'], 5)]], inherit := .static },
+        { nodes := [.defn ['d'] [(['p'], none), (['q'], some 1)] [.args], .call .next bodyName [] []] } ]
+    wf c = true ∧ compiles c = true ∧ render c 20 [] = .ok [.args [(['p'], 4), (['q'], 5)] []] := by decide
 
 /-- what the target's signature receives: every declared parameter, in order, bound to its positional argument,
 else to the keyword argument of its name, else to its default; `pageargs` is the keywords that name no declared
@@ -343,13 +430,13 @@ theorem block_checks_partial (l : List Node) (hd : (allDefNamesL l).Nodup) (ha :
     · exact h3 x hx hx'
 
 example :
-    let l : List Node := [.defn ['d'] [.block none 1 [.block (some ['b']) 2 []]], .block (some ['b']) 3 []]
+    let l : List Node := [.defn ['d'] [] [.block none 1 [.block (some ['b']) 2 []]], .block (some ['b']) 3 []]
     (allDefNamesL l).Nodup ∧ (allAnonLinesL l).Nodup ∧ misplacedL l ≠ [] ∧ ¬ (allBlocksL l).Nodup := by decide
 
 /-- the defect: the block `b` lies inside a def, yet the template compiles, because a later def of the same
 name replaces the first one and only the surviving def is ever visited -/
 theorem block_checks_counterexample_replaced_def :
-    let l : List Node := [.defn ['d'] [.block (some ['b']) 1 [.text 1]], .defn ['d'] [.text 2]]
+    let l : List Node := [.defn ['d'] [] [.block (some ['b']) 1 [.text 1]], .defn ['d'] [] [.text 2]]
     check l = [] ∧ misplacedL l ≠ [] := by decide
 
 /-- the defect: two anonymous blocks on one source line are rejected although no block name is duplicated and
